@@ -1,2 +1,229 @@
-//! stub
-pub fn artifact_to_replay_cli(_a: &[String]) -> i32 { 2 }
+//! Bridge between the libFuzzer targets in /verif/fuzz and the proptest-side checks.
+//!
+//! * the fuzz targets call `parse_one` / `exec_one`: same oracle as C23 / C24, failures whose
+//!   signature is in the allowlist (`VERIF_FUZZ_ALLOW` = file with one open known-finding
+//!   signature per line) are tolerated in-target, anything else aborts => crash artifact;
+//! * `artifact_to_case_*` turns an artifact (raw bytes) into the typed case of the check, so a
+//!   crash found by the fuzzer is replayed, classified and shrunk by the normal machinery;
+//! * `run_fuzzer` is what the thorough tier calls from `Check::prepare`.
+
+use crate::c23;
+use crate::c24;
+use crate::sqltext::{shape, MAX_INPUT};
+use std::path::{Path, PathBuf};
+use vcore::runner::{Args, GenCfg, Tier};
+use vcore::{Check, Obs, Tape, Verdict};
+
+pub fn load_allow() -> Vec<String> {
+    std::env::var("VERIF_FUZZ_ALLOW").ok().and_then(|p| std::fs::read_to_string(p).ok()).map(|t| t.lines().map(|l| l.trim().to_string()).filter(|l| !l.is_empty()).collect()).unwrap_or_default()
+}
+
+fn cfg_from_allow(allow: &[String]) -> GenCfg {
+    GenCfg { tier: Tier::Thorough, avoid_known: true, worker: 1, known_open: allow.to_vec() }
+}
+
+// ---- C23 -----------------------------------------------------------------------------------
+
+pub fn artifact_to_case_c23(data: &[u8]) -> c23::Case {
+    c23::Case::fuzz(String::from_utf8_lossy(data).into_owned())
+}
+
+/// Inputs the in-process fuzz target must not execute while stack-overflow findings are open
+/// (an overflow would kill the fuzzer itself): a third of the measured thresholds.
+pub fn too_deep_for_in_process(text: &str) -> bool {
+    let sh = shape(text);
+    sh.paren_depth > 250 || sh.case_depth > 300 || sh.sign_run > 4000 || sh.not_run > 4000 || sh.union_count > 1000 || sh.select_depth > 200 || sh.join_count > 1500 || sh.binop_count > 20000
+}
+
+/// One fuzz input for the `parse` target. Err(signature) = not tolerated.
+pub fn parse_one(data: &[u8], allow: &[String]) -> Result<(), String> {
+    let case = artifact_to_case_c23(data);
+    if case.text.len() > MAX_INPUT {
+        return Ok(());
+    }
+    let overflow_open = allow.iter().any(|s| s.starts_with("abort.stack_overflow."));
+    if overflow_open && too_deep_for_in_process(&case.text) {
+        return Ok(());
+    }
+    if allow.iter().any(|s| s == c23::HEX_LITERAL_SIG) && c23::defuse_hex_literal(&case.text).is_some() {
+        return Ok(());
+    }
+    let mut obs = Obs::default();
+    match c23::C23.run(&case, &mut obs) {
+        Verdict::Fail { sig, .. } if !allow.iter().any(|s| *s == sig) => Err(sig),
+        _ => Ok(()),
+    }
+}
+
+// ---- C24 -----------------------------------------------------------------------------------
+
+fn words(data: &[u8]) -> Vec<u32> {
+    data.chunks(4)
+        .map(|c| {
+            let mut b = [0u8; 4];
+            b[..c.len()].copy_from_slice(c);
+            u32::from_le_bytes(b)
+        })
+        .collect()
+}
+
+/// choice words -> C24 case over the fixed schema
+pub fn case_from_words_c24(w: &[u32], allow: &[String]) -> c24::Case {
+    let mut t = Tape::new(w);
+    c24::C24.build_fixed(&mut t, &cfg_from_allow(allow))
+}
+
+/// bytes -> little-endian u32 words (what `u32::arbitrary` reads) -> C24 case
+pub fn artifact_to_case_c24(data: &[u8], allow: &[String]) -> c24::Case {
+    case_from_words_c24(&words(data), allow)
+}
+
+pub fn exec_case(case: &c24::Case, allow: &[String]) -> Result<(), String> {
+    let mut obs = Obs::default();
+    match c24::C24.run_case(case, &mut obs) {
+        Verdict::Fail { sig, .. } if !allow.iter().any(|s| *s == sig) => Err(sig),
+        _ => Ok(()),
+    }
+}
+
+// ---- conversion CLI ------------------------------------------------------------------------
+
+pub fn artifact_to_replay(id: &str, artifact: &Path, out: &Path, allow: &[String]) -> Result<(), String> {
+    let data = std::fs::read(artifact).map_err(|e| format!("{}: {}", artifact.display(), e))?;
+    let js = match id {
+        "C23" => serde_json::to_string_pretty(&artifact_to_case_c23(&data)),
+        "C24" => serde_json::to_string_pretty(&artifact_to_case_c24(&data, allow)),
+        other => return Err(format!("unknown property {}", other)),
+    }
+    .map_err(|e| e.to_string())?;
+    std::fs::write(out, js).map_err(|e| e.to_string())
+}
+
+pub fn artifact_to_replay_cli(a: &[String]) -> i32 {
+    if a.len() != 3 {
+        eprintln!("usage: chk_total fuzz-to-replay <C23|C24> <artifact> <out.json>   (VERIF_FUZZ_ALLOW=<allowlist> as for the fuzz run)");
+        return 2;
+    }
+    match artifact_to_replay(&a[0], Path::new(&a[1]), Path::new(&a[2]), &load_allow()) {
+        Ok(()) => 0,
+        Err(e) => {
+            eprintln!("{}", e);
+            2
+        }
+    }
+}
+
+// ---- thorough tier: bounded fuzzer run ---------------------------------------------------------
+
+pub struct FuzzPlan {
+    pub id: &'static str,
+    pub target: &'static str,
+    pub runs: u64,
+    pub max_total_time_s: u64,
+    pub timeout_s: u64,
+}
+
+fn fuzz_root() -> PathBuf {
+    std::env::var("VERIF_FUZZ_DIR").map(PathBuf::from).unwrap_or_else(|_| PathBuf::from("/verif/fuzz"))
+}
+
+fn copy_dir(from: &Path, to: &Path) -> usize {
+    let mut n = 0;
+    if let Ok(rd) = std::fs::read_dir(from) {
+        for e in rd.flatten() {
+            if e.path().is_file() && std::fs::copy(e.path(), to.join(e.file_name())).is_ok() {
+                n += 1;
+            }
+        }
+    }
+    n
+}
+
+/// Build (incrementally) and run one libFuzzer target for a bounded number of runs from a fresh
+/// temporary corpus seeded with the committed one; convert every artifact into a replay file
+/// under `$VERIF_ROOT/replays/<ID>/fuzz-<name>.json` (picked up by stage 1 of the runner).
+/// Returns a summary for the evidence file. Err = the fuzzer could not be run (exit 2).
+pub fn run_fuzzer(plan: &FuzzPlan, args: &Args) -> Result<serde_json::Value, String> {
+    if std::env::var("VERIF_NO_FUZZ").is_ok() {
+        return Ok(serde_json::json!({"skipped": "VERIF_NO_FUZZ set"}));
+    }
+    let root = fuzz_root();
+    // open known findings of this property => allowlist
+    let kfs = vcore::kf::KnownFindings::load(&args.root.join("known_findings.json"), plan.id);
+    let allow: Vec<String> = if args.strict { vec![] } else { kfs.open_signatures() };
+    let work = std::env::temp_dir().join(format!("verif_fuzz_{}_{}_{}", plan.id, args.seed, std::process::id()));
+    let _ = std::fs::remove_dir_all(&work);
+    let corpus = work.join("corpus");
+    let arts = work.join("artifacts");
+    std::fs::create_dir_all(&corpus).map_err(|e| e.to_string())?;
+    std::fs::create_dir_all(&arts).map_err(|e| e.to_string())?;
+    let allow_file = work.join("allow.txt");
+    std::fs::write(&allow_file, allow.join("\n")).map_err(|e| e.to_string())?;
+    let seeded = copy_dir(&root.join("corpus").join(plan.target), &corpus);
+    // build
+    let build = std::process::Command::new("cargo")
+        .args(["+nightly", "fuzz", "build", "-s", "none", "-a", plan.target])
+        .current_dir(&root)
+        .env("CARGO_NET_OFFLINE", "true")
+        .env_remove("RUSTFLAGS")
+        .output()
+        .map_err(|e| format!("cannot start cargo fuzz build: {}", e))?;
+    if !build.status.success() {
+        return Err(format!("cargo +nightly fuzz build {} failed: {}", plan.target, vcore::runner::truncate(&String::from_utf8_lossy(&build.stderr), 1500)));
+    }
+    let bin = root.join("target/x86_64-unknown-linux-gnu/release").join(plan.target);
+    if !bin.exists() {
+        return Err(format!("fuzz binary {} not found after build", bin.display()));
+    }
+    let dict = root.join("dict").join(format!("{}.dict", plan.target));
+    let mut cmd = std::process::Command::new(&bin);
+    cmd.arg(&corpus)
+        .arg(format!("-runs={}", plan.runs))
+        .arg(format!("-seed={}", (args.seed % (u32::MAX as u64)).max(1)))
+        .arg("-len_control=0")
+        .arg("-max_len=65536")
+        .arg(format!("-max_total_time={}", plan.max_total_time_s))
+        .arg(format!("-timeout={}", plan.timeout_s))
+        .arg("-rss_limit_mb=4096")
+        .arg("-print_final_stats=1")
+        .arg(format!("-artifact_prefix={}/", arts.display()))
+        .env("VERIF_FUZZ_ALLOW", &allow_file)
+        .env("VERIF_ROOT", &args.root);
+    if dict.exists() {
+        cmd.arg(format!("-dict={}", dict.display()));
+    }
+    let start = std::time::Instant::now();
+    let out = cmd.output().map_err(|e| format!("cannot run {}: {}", bin.display(), e))?;
+    let stderr = String::from_utf8_lossy(&out.stderr).into_owned();
+    let stat = |key: &str| -> u64 { stderr.lines().filter_map(|l| l.strip_prefix(key)).filter_map(|v| v.trim().parse().ok()).next_back().unwrap_or(0) };
+    let execs = stat("stat::number_of_executed_units:");
+    // artifacts => replay files
+    let dir = args.root.join("replays").join(plan.id);
+    let _ = std::fs::create_dir_all(&dir);
+    let mut converted = Vec::new();
+    if let Ok(rd) = std::fs::read_dir(&arts) {
+        for e in rd.flatten() {
+            let name = e.file_name().to_string_lossy().into_owned();
+            let outp = dir.join(format!("fuzz-{}.json", name));
+            artifact_to_replay(plan.id, &e.path(), &outp, &allow)?;
+            converted.push(outp.display().to_string());
+        }
+    }
+    let summary = serde_json::json!({
+        "target": plan.target,
+        "runs_requested": plan.runs,
+        "executed_units": execs,
+        "seed_corpus_files": seeded,
+        "wall_s": start.elapsed().as_secs_f64(),
+        "exit_status": format!("{:?}", out.status),
+        "allowlisted_signatures": allow.len(),
+        "artifacts_converted_to_replays": converted,
+        "tail": vcore::runner::truncate(&stderr.lines().rev().take(12).collect::<Vec<_>>().into_iter().rev().collect::<Vec<_>>().join("\n"), 1500),
+    });
+    if !out.status.success() && converted.is_empty() {
+        // the fuzzer died without leaving an artifact: cannot be turned into a replay
+        return Err(format!("fuzz target {} ended with {:?} and no artifact; stderr tail: {}", plan.target, out.status, vcore::runner::truncate(&stderr, 1500)));
+    }
+    let _ = std::fs::remove_dir_all(&work);
+    Ok(summary)
+}
